@@ -169,12 +169,14 @@ const POOL_KEY: &[u8] = b"\x00\x04bank\x00\x08balancesstaking_module";
 
 impl World {
     fn new(case: &Case) -> World {
-        let delegators: Vec<Addr> = (0..N_DELEGATORS).map(|i| format!("delegator{}", i).into_addr()).collect();
+        // (a crowd scenario brings more delegators than the usual three)
+        let nd = case.funds.len().clamp(N_DELEGATORS, 24);
+        let delegators: Vec<Addr> = (0..nd).map(|i| format!("delegator{}", i).into_addr()).collect();
         let third: Vec<Addr> = (0..N_THIRD).map(|i| format!("third{}", i).into_addr()).collect();
         let nval = case.commissions.len().clamp(1, 3);
         let validators: Vec<String> = (0..nval).map(|i| format!("validator{}", i)).collect();
         let commissions: Vec<u128> = (0..nval).map(|i| (case.commissions.get(i).copied().unwrap_or(0) as u128).min(1_000_000_000_000_000_000)).collect();
-        let funds: Vec<u128> = (0..N_DELEGATORS).map(|i| case.funds.get(i).copied().unwrap_or(0) as u128).collect();
+        let funds: Vec<u128> = (0..nd).map(|i| case.funds.get(i).copied().unwrap_or(0) as u128).collect();
         let apr = case.apr.min(10_000_000_000_000_000_000);
         let (d2, v2, c2, f2) = (delegators.clone(), validators.clone(), commissions.clone(), funds.clone());
         let unbonding = case.unbonding_time;
@@ -242,7 +244,7 @@ impl World {
 
     fn snapshot_delegations(&self) -> Result<BTreeMap<(usize, usize), (u128, u128)>, String> {
         let mut m = BTreeMap::new();
-        for d in 0..N_DELEGATORS {
+        for d in 0..self.delegators.len() {
             for vi in 0..self.validators.len() {
                 m.insert((d, vi), self.real_delegation(d, vi)?);
             }
@@ -252,7 +254,7 @@ impl World {
 
     fn snapshot_rewards(&self) -> BTreeMap<(usize, usize), Option<u128>> {
         let mut m = BTreeMap::new();
-        for d in 0..N_DELEGATORS {
+        for d in 0..self.delegators.len() {
             for vi in 0..self.validators.len() {
                 m.insert((d, vi), self.real_rewards(d, vi));
             }
@@ -305,7 +307,7 @@ impl World {
         }
         // delegations and rewards
         let eps = Decimal256::from_ratio(1u128, 1_000_000u128);
-        for d in 0..N_DELEGATORS {
+        for d in 0..self.delegators.len() {
             let mut sum_pairs: BTreeMap<String, u128> = BTreeMap::new();
             for vi in 0..self.validators.len() {
                 let (shown, shown_r) = match self.real_delegation(d, vi) {
@@ -435,7 +437,7 @@ impl StakingCheck {
             concrete.push(op.clone());
             match op {
                 SOp::Delegate(d, vi, amt, foreign) => {
-                    let d = *d as usize % N_DELEGATORS;
+                    let d = *d as usize % w.delegators.len();
                     let known = (*vi as usize) < nval;
                     let vname = if known { w.validators[*vi as usize].clone() } else { "nobody".to_string() };
                     let who = w.delegators[d].to_string();
@@ -480,7 +482,7 @@ impl StakingCheck {
                     }
                 }
                 SOp::Undelegate(d, vi, amt, foreign) | SOp::Redelegate(d, vi, _, amt, foreign) => {
-                    let d = *d as usize % N_DELEGATORS;
+                    let d = *d as usize % w.delegators.len();
                     let known = (*vi as usize) < nval;
                     let vname = if known { w.validators[*vi as usize].clone() } else { "nobody".to_string() };
                     let shown = if known { w.real_delegation(d, *vi as usize).map(|x| x.0).unwrap_or(0) } else { 0 };
@@ -553,7 +555,7 @@ impl StakingCheck {
                     }
                 }
                 SOp::Withdraw(d, vi) => {
-                    let d = *d as usize % N_DELEGATORS;
+                    let d = *d as usize % w.delegators.len();
                     let known = (*vi as usize) < nval;
                     let vname = if known { w.validators[*vi as usize].clone() } else { "nobody".to_string() };
                     let shown_before = if known { w.real_rewards(d, *vi as usize) } else { None };
@@ -615,7 +617,7 @@ impl StakingCheck {
                     }
                 }
                 SOp::SetWithdraw(d, t) => {
-                    let d = *d as usize % N_DELEGATORS;
+                    let d = *d as usize % w.delegators.len();
                     let all: Vec<Addr> = w.delegators.iter().chain(w.third.iter()).cloned().collect();
                     let target = all[*t as usize % all.len()].clone();
                     let sender = w.delegators[d].clone();
@@ -656,17 +658,17 @@ impl StakingCheck {
                             } else {
                                 let vi = *vi as usize;
                                 let keep = 1_000_000_000_000_000_000u128 - pa;
-                                let ndel = (0..N_DELEGATORS).filter(|d| del_before[&(*d, vi)].0 > 0).count();
+                                let ndel = (0..w.delegators.len()).filter(|d| del_before[&(*d, vi)].0 > 0).count();
                                 let pend_here = w.queue.iter().any(|u| u.v == vi);
                                 let pend_other = w.queue.iter().any(|u| u.v != vi);
-                                let other_del = (0..N_DELEGATORS).any(|d| (0..nval).any(|x| x != vi && del_before[&(d, x)].0 > 0));
+                                let other_del = (0..w.delegators.len()).any(|d| (0..nval).any(|x| x != vi && del_before[&(d, x)].0 > 0));
                                 if ndel >= 2 && pend_here && pend_other && other_del {
                                     stats.slashes_multi = true;
                                 }
                                 if pend_here {
                                     stats.slash_while_pending = true;
                                 }
-                                for d in 0..N_DELEGATORS {
+                                for d in 0..w.delegators.len() {
                                     let pr = w.pairs.entry((d, vi)).or_default();
                                     pr.lo = mul_floor(pr.lo, keep);
                                     let exact = pr.hi * d256(keep);
@@ -718,7 +720,7 @@ impl StakingCheck {
                                         // entirely: p = 1, or the validator's whole-token total reached zero (section 6);
                                         // the total is positive for certain while somebody is still shown a whole token
                                         if let (Some(x), None) = (b, rew_after[k]) {
-                                            let whole_left: u128 = (0..N_DELEGATORS).map(|d| w.pairs.get(&(d, vi)).map_or(0, |p| p.lo)).sum();
+                                            let whole_left: u128 = (0..w.delegators.len()).map(|d| w.pairs.get(&(d, vi)).map_or(0, |p| p.lo)).sum();
                                             if *x > 0 && pa < 1_000_000_000_000_000_000 && (k.1 != vi || whole_left > 0) {
                                                 out.push(v("C16", "slash-dropped-rewards", format!("step {}: {:?} (validator total still positive) dropped the accrued reward {} of (delegator{}, validator{})", step, op, x, k.0, k.1)));
                                                 break;
@@ -746,7 +748,7 @@ impl StakingCheck {
                 }
                 SOp::Checkpoint(vi) => {
                     let vi = *vi as usize;
-                    let staked: u128 = (0..N_DELEGATORS).map(|d| w.pairs.get(&(d, vi)).map_or(0, |p| p.lo)).sum();
+                    let staked: u128 = (0..w.delegators.len()).map(|d| w.pairs.get(&(d, vi)).map_or(0, |p| p.lo)).sum();
                     if vi < nval && !w.slashed_positive.contains(&vi) && staked > 0 {
                         let msg = SudoMsg::Staking(StakingSudo::Slash { validator: w.validators[vi].clone(), percentage: Decimal::zero() });
                         let app = &mut w.app;
@@ -830,7 +832,7 @@ impl StakingCheck {
         }
         // final per-pair totals for the path-independence comparison
         let mut totals = BTreeMap::new();
-        for d in 0..N_DELEGATORS {
+        for d in 0..w.delegators.len() {
             for vi in 0..nval {
                 // pending rewards count only for a delegation that is positive at the end
                 let positive = w.real_delegation(d, vi).map(|x| x.0 > 0).unwrap_or(false);
@@ -887,21 +889,21 @@ impl Check for StakingCheck {
             "C15" => Spec {
                 id: "C15",
                 level: "exploration",
-                rule: "generated staking histories (1-60 ops over 3 delegators, 1-3 validators with commissions from {0, 1%, 33.3..%, 100%, random}, apr with up to 18 decimals, non-round stakes, time split into block updates of 0 s to 10^7 s, whole seconds and arbitrary nanosecond amounts, interleaved withdrawals, withdraw-address changes, stake changes, slashes); at every step and for every pair with a positive delegation: withdrawn + shown <= upper accrual of stake x rate x (1-commission) x time / year + 1e-6 and > lower accrual - (withdrawals + 1) - 1e-6; each successful withdrawal pays exactly the reward shown immediately before to the current withdraw address, mints nothing else, resets the pending reward, leaves other pairs' pending rewards untouched; the same history re-run with extra reward checkpoints (split block updates, 0% slashes) gives per-pair withdrawn+shown within (withdrawals+1) tokens. Non-trivial: >=3 time intervals with a positive delegation, >=1 successful withdrawal; distinct = distinct serialised history",
+                rule: "generated staking histories (1-60 ops over 3 delegators, 1-3 validators with commissions from {0, 1%, 33.3..%, 100%, random}, apr with up to 18 decimals, non-round stakes, time split into block updates of 0 s to 10^7 s, whole seconds and arbitrary nanosecond amounts, interleaved withdrawals, withdraw-address changes, stake changes, slashes); at every step and for every pair with a positive delegation: withdrawn + shown <= upper accrual of stake x rate x (1-commission) x time / year + 1e-6 and > lower accrual - (withdrawals + 1) - 1e-6; each successful withdrawal pays exactly the reward shown immediately before to the current withdraw address, mints nothing else, resets the pending reward, leaves other pairs' pending rewards untouched; the same history re-run with extra reward checkpoints (split block updates, 0% slashes) gives per-pair withdrawn+shown within (withdrawals+1) tokens. Non-trivial: >=3 time intervals with a positive delegation, >=1 successful withdrawal; distinct = distinct serialised history Scenario templates (about four histories in ten start with one): sub-token remainder then newcomer, queued unbondings with a slash to zero, whole-token rewards from a non-terminating rate, full redelegation between two halved validators, a delegator slashed below one token while holding accrued rewards, and a crowd of 17-24 delegators whose unbondings mature in one block update",
                 assumptions: vec!["block time advances by whole seconds or by arbitrary nanosecond amounts, never backwards", "stakes <= 10^8 tokens, rate <= 1000 %, total time <= 20 years: the crate multiplies reward x stake in 128-bit 18-decimal fixed point, which overflows (documented panic of Decimal) above about 3.4e20", "a withdrawal while nothing is pending may be refused"],
                 floor_quick: 150,
             },
             "C16" => Spec {
                 id: "C16",
                 level: "exploration",
-                rule: "generated staking histories biased to slashes (p from {0, 1e-18, 1/3, 1/2, 0.999.., 1, 1+1e-18, 2, random}, unknown validators, several delegators per validator, pending unbondings from several validators, repeated slashes); around every slash all delegations, balances, pool and pending rewards are snapshotted: delegations to the slashed validator must lie in [floor-chain of (1-p), floor of exact (1-p) scaling] and never increase, p = 1 removes them, everything else is bit-identical, invalid slashes are rejected without effect; later payouts of pending unbondings equal floor(amount x (1-p)) per slash. Non-trivial: a slash with >=2 delegators on the validator, a delegation elsewhere and pending unbondings from both; distinct = distinct serialised history",
+                rule: "generated staking histories biased to slashes (p from {0, 1e-18, 1/3, 1/2, 0.999.., 1, 1+1e-18, 2, random}, unknown validators, several delegators per validator, pending unbondings from several validators, repeated slashes); around every slash all delegations, balances, pool and pending rewards are snapshotted: delegations to the slashed validator must lie in [floor-chain of (1-p), floor of exact (1-p) scaling] and never increase, p = 1 removes them, everything else is bit-identical, invalid slashes are rejected without effect; later payouts of pending unbondings equal floor(amount x (1-p)) per slash. Non-trivial: a slash with >=2 delegators on the validator, a delegation elsewhere and pending unbondings from both; distinct = distinct serialised history Scenario templates (about four histories in ten start with one): sub-token remainder then newcomer, queued unbondings with a slash to zero, whole-token rewards from a non-terminating rate, full redelegation between two halved validators, a delegator slashed below one token while holding accrued rewards, and a crowd of 17-24 delegators whose unbondings mature in one block update",
                 assumptions: vec!["sub-token remainders may be dropped (interval oracle, sound for implementations keeping whole or fractional shares)"],
                 floor_quick: 20,
             },
             _ => Spec {
                 id: "C14",
                 level: "exploration",
-                rule: "generated staking histories (1-60 ops: delegate, undelegate, redelegate, withdraw, set-withdraw-address, slash, advance block (whole seconds incl. 0 / unbonding_time-1 / unbonding_time, or arbitrary nanoseconds); amounts relative to balance or delegation: 1, half, all, all+1, zero, primes; foreign denomination; unknown validators; unbonding_time from {0, 1, 60, 10^6}); after every op all balances, the pool, supply, every Delegation/AllDelegations answer are compared with an integer reference; listed invalid ops must fail with root storage byte-identical; each unbonding is paid exactly (folded through floor(x(1-p)) per slash) by the first block update at or after its maturity and not before; panics are violations. Non-trivial: a partial undelegation, a slash while it is pending, a block update past its maturity and a further staking operation; distinct = distinct serialised history",
+                rule: "generated staking histories (1-60 ops: delegate, undelegate, redelegate, withdraw, set-withdraw-address, slash, advance block (whole seconds incl. 0 / unbonding_time-1 / unbonding_time, or arbitrary nanoseconds); amounts relative to balance or delegation: 1, half, all, all+1, zero, primes; foreign denomination; unknown validators; unbonding_time from {0, 1, 60, 10^6}); after every op all balances, the pool, supply, every Delegation/AllDelegations answer are compared with an integer reference; listed invalid ops must fail with root storage byte-identical; each unbonding is paid exactly (folded through floor(x(1-p)) per slash) by the first block update at or after its maturity and not before; panics are violations. Non-trivial: a partial undelegation, a slash while it is pending, a block update past its maturity and a further staking operation; distinct = distinct serialised history Scenario templates (about four histories in ten start with one): sub-token remainder then newcomer, queued unbondings with a slash to zero, whole-token rewards from a non-terminating rate, full redelegation between two halved validators, a delegator slashed below one token while holding accrued rewards, and a crowd of 17-24 delegators whose unbondings mature in one block update",
                 assumptions: vec!["block time is non-decreasing (whole-second and arbitrary nanosecond advances)", "after a validator was slashed a valid-looking undelegation may be refused (counted as tolerated, not flagged)", "stakes <= 10^8 tokens, rate <= 1000 %, total time <= 20 years (no overflow of 18-decimal fixed point, the statement's precondition)"],
                 floor_quick: 100,
             },
@@ -950,7 +952,7 @@ impl Check for StakingCheck {
         let mut unbonding_time = unbonding_time;
         // scenario templates: shapes that random operations reach only rarely; random operations follow
         let (mut apr, mut commissions, mut funds): (u128, Vec<u64>, Vec<u64>) = (apr, commissions, funds);
-        match g.weighted(&[12, 2, 2, 2, 2, 2]) {
+        match g.weighted(&[12, 2, 2, 2, 2, 2, 1]) {
             3 => {
                 // rewards that are whole tokens although the per-token rate (total reward / total stake)
                 // does not terminate in 18 decimals: two delegators with 300k and 600k on one validator,
@@ -966,6 +968,22 @@ impl Check for StakingCheck {
                 ops.push(SOp::Advance(if g.bool() { YEAR / 3 } else { YEAR / 9 * g.range(1, 9) }));
                 ops.push(SOp::Withdraw(0, v));
                 ops.push(SOp::Withdraw(1, v));
+            }
+            6 => {
+                // a crowd: seventeen to twenty-four delegators whose unbondings all mature in one block update
+                let v = g.below(nval) as u8;
+                let n = 17 + g.below(8);
+                funds = (0..n).map(|_| g.range(2, 40)).collect();
+                for d in 0..n as u8 {
+                    ops.push(SOp::Delegate(d, v, SAmt::Half, false));
+                }
+                if g.bool() {
+                    ops.push(SOp::Advance(g.range(1, 1000)));
+                }
+                for d in 0..n as u8 {
+                    ops.push(SOp::Undelegate(d, v, if g.bool() { SAmt::All } else { SAmt::One }, false));
+                }
+                ops.push(SOp::Advance(unbonding_time));
             }
             5 => {
                 // a delegator with accrued rewards is slashed below one token while the validator keeps whole
